@@ -1,2 +1,84 @@
-// Package c01: correspondence harness for property C01 (stub — registers nothing yet).
+// Package c01: environment state graph, illegal requests inert, failed API requests end in ERROR.
+// Real Environment / fsm / TryTransition / TeardownEnvironment through harness/envh.
 package c01
+
+import (
+	"verifharness/envh"
+	"verifharness/fw"
+	"verifharness/rng"
+	"verifharness/sx"
+)
+
+var profile = envh.Profile{MaxHooks: 5, MaxReqs: 14, FailP: 120, BodyFailP: 150, IllegalP: 300, TaskHookP: 150, FloatP: 150,
+	TeardownP: 80, ControlP: 600, DestroyHooks: true}
+
+// exhaustive part: every (state, event) cell reached by a fixed path, requested both ways
+func cells() []fw.Case {
+	path := map[string][][2]string{
+		"STANDBY":    {},
+		"DEPLOYED":   {{"T", "DEPLOY"}},
+		"CONFIGURED": {{"T", "DEPLOY"}, {"T", "CONFIGURE"}},
+		"RUNNING":    {{"T", "DEPLOY"}, {"T", "CONFIGURE"}, {"T", "START_ACTIVITY"}},
+		"ERROR":      {{"T", "GO_ERROR"}},
+		"DONE":       {{"T", "EXIT"}},
+	}
+	var cs []fw.Case
+	for _, st := range []string{"STANDBY", "DEPLOYED", "CONFIGURED", "RUNNING", "ERROR", "DONE"} {
+		for _, ev := range []string{"DEPLOY", "CONFIGURE", "RESET", "START_ACTIVITY", "STOP_ACTIVITY", "EXIT", "GO_ERROR", "RECOVER"} {
+			for _, kind := range []string{"T", "C"} {
+				for _, bodyOk := range []bool{true, false} {
+					reqs := sx.L()
+					for _, p := range path[st] {
+						reqs.Add(sx.L(sx.A(p[0]), sx.A(p[1]), sx.B(true), sx.B(false)))
+					}
+					reqs.Add(sx.L(sx.A(kind), sx.A(ev), sx.B(bodyOk), sx.B(false)))
+					// one hook at every moment of the requested event, so that "no hook ran" is observable
+					hooks := sx.L(
+						sx.L(sx.I(0), sx.A("call"), sx.B(true), sx.A("before_"+ev), sx.I(0), sx.A("before_"+ev), sx.I(0), sx.L()),
+						sx.L(sx.I(1), sx.A("call"), sx.B(true), sx.A("leave_"+st), sx.I(0), sx.A("leave_"+st), sx.I(0), sx.L()),
+						sx.L(sx.I(2), sx.A("task"), sx.B(true), sx.A("after_"+ev), sx.I(-1), sx.A("after_"+ev), sx.I(-1), sx.L()))
+					cs = append(cs, fw.Case{Input: sx.L(hooks, reqs, sx.I(1)).String(), Tags: []string{"cell"}})
+				}
+			}
+		}
+	}
+	return cs
+}
+
+func generate(tier string, r *rng.R) []fw.Case {
+	n := 250
+	if tier == "thorough" {
+		n = 4000
+	}
+	cs := cells()
+	for i := 0; i < n; i++ {
+		cs = append(cs, envh.GenCase(r.Fork(), profile))
+	}
+	return cs
+}
+
+func init() {
+	fw.Register(&fw.Property{
+		ID:         "C01",
+		Generate:   generate,
+		RunImpl:    func(in string) (string, error) { return envh.Run(in, true) },
+		Nontrivial: envh.Nontrivial,
+		Rule: "all 6x8 (state,event) cells x {TryTransition, API glue} x {body ok, body fails} with hooks at the request's moments (exhaustive), then random " +
+			"walks of 1..14 requests (30% arbitrary events, 60% through the ControlEnvironment glue, 8% teardowns with scripted release results) over 0..5 hooks " +
+			"(call and task hooks, failing executions, floating awaits); non-trivial = >=2 hooks and >=3 requests; distinct by input text",
+		Shrink:   envh.Shrink,
+		Workers:  1,
+		Setup:    envh.Setup,
+		Teardown: envh.Teardown,
+		TrustedBase: []string{
+			"harness/envh: environment builder (YAML roles, NewTaskForVerif tasks), probe plugin, event capture, fake task manager answering ReleaseTasks",
+			"the 6 lines of RpcServer.ControlEnvironment (failed transition => GO_ERROR => forced ERROR) are replicated in the harness; the real RPC is exercised by the whole-core simulator",
+			"verif hooks in /repo: core/environment/verif_hooks.go, core/workflow/verif_hooks.go, core/the/verif_hooks.go, core/task/verif_hooks_task.go",
+		},
+		Assumptions: []string{
+			"looplab/fsm v1.0.1 Event/Cancel semantics as modelled (sampled by every case)",
+			"scripted task-level bodies stand in for the real transition bodies (Deploy/Configure/Start/Stop/Reset talk to the task manager)",
+			"transitionMutex serialises requests (sync.RWMutex trusted); this harness issues requests sequentially",
+		},
+	})
+}
